@@ -31,8 +31,8 @@ ClassOK(a, v, c) ==
   \/ c = "sent" /\ v # Absent /\ v \in AllowedDelivered(a, v)
   \/ c = "sent" /\ v # Absent /\ Emptyish(a, v)
   \/ c = "absent" /\ Absent \in AllowedDelivered(a, v)
-  \/ c = "absent" /\ v = Absent /\ IsContainer(a) /\ a.mode # "default"
-  \/ c = "default" /\ a.mode = "default" /\ DefaultOf(a) \in AllowedDelivered(a, v)
+  \/ c = "absent" /\ v = Absent /\ IsContainer(a) /\ ~HasDefault(a)
+  \/ c = "default" /\ HasDefault(a) /\ DefaultOf(a) \in AllowedDelivered(a, v)
 
 TReset == /\ Ev("reset") /\ pc = "done"
           /\ cfg' = [pa |-> E.pa, ra |-> E.ra, tagged |-> E.tagged, tags |-> E.tags, devs |-> {}]
